@@ -184,6 +184,15 @@ func genMapFamilies(g genCfg, c ContainerKind, level int, full bool) []*MapScen 
 			}
 		}
 	}
+	// F16: chains of exactly three and four buckets (scenario keys in the root bucket or in the last one)
+	for _, ch := range []int{3, 4} {
+		for _, ff := range []bool{false, true} {
+			for _, b := range []MIn{opLoad, opLoS, opDelete, opLaD} {
+				add(&MapScen{Rel: RelSD, NKeys: 3, Init: []int{1, 1, 0}, Table: TChain2, Chain: ch, FillFirst: ff, Threads: [][]MIn{{on(opDelete, 0), on(opStore, 2)}, {on(b, 1)}}})
+			}
+			add(&MapScen{Rel: RelSD, NKeys: 3, Init: []int{1, 1, 0}, Table: TChain2, Chain: ch, FillFirst: ff, Threads: [][]MIn{{on(opStore, 2)}, {on(opStore, 0)}}})
+		}
+	}
 	// F13: non-initial start: the map has grown and shrunk back to its minimum length before the scenario
 	for _, a := range []MIn{opStore, opDelete, opLoS, opCDel, opClear} {
 		for _, b := range []MIn{opLoad, opStore, opDelete, opLaD, opLoC, opClear} {
